@@ -1045,15 +1045,11 @@ bool Builder::FinishCommand(BuildResult::CommandCompleted& result,
   if (!rspfile.empty() && !g_keep_rsp)
     disk_interface_->RemoveFile(rspfile);
 
-  if (scan_.build_log()) {
-    if (!scan_.build_log()->RecordCommand(
-            edge, static_cast<int>(start_time_millis),
-            static_cast<int>(end_time_millis), record_mtime)) {
-      *err = string("Error writing to build log: ") + strerror(errno);
-      return false;
-    }
-  }
-
+  // Record the dependencies before the build log entry: if ninja dies in
+  // between, the command counts as not done and runs again.  The other way
+  // round a restat command that left its output alone would be trusted with
+  // the dependencies of its previous run (their record still matches the
+  // output's mtime).
   if (!deps_type.empty() && !config_.dry_run) {
     assert(!edge->outputs_.empty() && "should have been rejected by parser");
     for (std::vector<Node*>::const_iterator o = edge->outputs_.begin();
@@ -1065,6 +1061,15 @@ bool Builder::FinishCommand(BuildResult::CommandCompleted& result,
         *err = std::string("Error writing to deps log: ") + strerror(errno);
         return false;
       }
+    }
+  }
+
+  if (scan_.build_log()) {
+    if (!scan_.build_log()->RecordCommand(
+            edge, static_cast<int>(start_time_millis),
+            static_cast<int>(end_time_millis), record_mtime)) {
+      *err = string("Error writing to build log: ") + strerror(errno);
+      return false;
     }
   }
   return true;
